@@ -16,6 +16,8 @@ import (
 
 var checks = map[string]func(*Ctx){
 	"C20": checkC20,
+	"C09": checkC09,
+	"C11": checkC11,
 }
 
 func main() {
@@ -83,6 +85,7 @@ func run(property, tier, repo, verif string, seed int, overlay map[string][]byte
 		return 1
 	}
 	c := NewCtx(p, property, tier, verif)
+	c.OutDir = os.Getenv("VERIF_OUT")
 	c.Start = t0
 	defer func() {
 		if r := recover(); r != nil {
